@@ -145,7 +145,8 @@ class Renderer(object):
             return "(%s)(%s)" % (self.ex(x["f"]), ", ".join(self.ex(a) for a in x["args"]))
         if e == "print":
             return "print << " + " << ".join(self.ex(a) for a in x["args"])
-        if e == "list" and len(x["args"]) == 1 and x["args"][0].get("e") in ("if", "seq"):
+        if e == "list" and len(x["args"]) == 1 and x["args"][0].get("e") in ("if", "seq") \
+                and not self.p.get("render_opts", {}).get("singleton_bracket"):
             # known finding C01 singleton-bracket: [ (if c then a else b) ] faults at run time
             return "cons(%s, (nil@%s))" % (self.ex(x["args"][0]), tname(x["t"]))
         if e == "list":
